@@ -18,9 +18,76 @@ CVC5_TIMEOUT_S = int(os.environ.get("PYVC_CVC5_S", "60"))
 CVC5 = "/usr/bin/cvc5"
 
 
-def to_smt2(assumptions, goal, expect_sat=False, qf=True, watch=None, rounds=None):
+def _uf_names(e, acc, seen):
+    """names of the uninterpreted function symbols (arity >= 1) occurring in e"""
+    i = e.get_id()
+    if i in seen:
+        return acc
+    seen.add(i)
+    if z3.is_quantifier(e):
+        return _uf_names(e.body(), acc, seen)
+    if z3.is_app(e):
+        if e.num_args() > 0 and e.decl().kind() == z3.Z3_OP_UNINTERPRETED:
+            acc.add(e.decl().name())
+        for c in e.children():
+            _uf_names(c, acc, seen)
+    return acc
+
+
+def slim_hypotheses(assumptions, goal, depth=1):
+    """Hypothesis selection for a second, smaller query: every quantifier-free hypothesis is kept; a QUANTIFIED hypothesis is
+    kept only if it shares an uninterpreted function symbol with the goal (depth 1) or with a hypothesis kept in the previous
+    step (depth 2, ...).  Dropping hypotheses is sound for `unsat` (= proved); a `sat` of a slim query is never reported."""
+    from .quant import _contains_quant
+    syms = _uf_names(goal, set(), set())
+    info = [(a, _contains_quant(a), _uf_names(a, set(), set())) for a in assumptions]
+    kept = set()
+    for _ in range(depth):
+        new = set()
+        for k, (a, q, names) in enumerate(info):
+            if q and k not in kept and names & syms:
+                kept.add(k)
+                new |= names
+        if not new - syms:
+            break
+        if _ + 1 < depth:
+            syms = syms | new
+    return [a for k, (a, q, _n) in enumerate(info) if not q or k in kept], {"quantified_hypotheses": sum(1 for _a, q, _n in info if q), "kept": len(kept)}
+
+
+# At most this many solver processes run at any time across ALL worker processes of one check (the semaphore is created at
+# import, before any worker is forked).  Without it a hard obligation - which races up to seven solver processes - competes
+# with fifteen others for the cores, and a 15 s query no longer fits a 60 s budget.  Waiting for a slot does not count
+# against a solver's time limit.
+_SLOTS = mp.get_context("fork").BoundedSemaphore(int(os.environ.get("PYVC_SOLVER_SLOTS", str(max(2, (os.cpu_count() or 4) - 2)))))
+
+
+class _slot:
+    def __init__(self, cancel=None):
+        self.cancel, self.held = cancel, False
+
+    def __enter__(self):
+        while not _SLOTS.acquire(timeout=0.25):
+            if self.cancel is not None and self.cancel.is_set():
+                return self
+        self.held = True
+        return self
+
+    def __exit__(self, *a):
+        if self.held:
+            try:
+                _SLOTS.release()
+            except ValueError:
+                pass
+        return False
+
+
+def to_smt2(assumptions, goal, expect_sat=False, qf=True, watch=None, rounds=None, slim=0):
     """SMT-LIB text of `assumptions and not goal` (or `and goal` for covers), made quantifier-free (pyvc.quant)."""
     from .quant import make_qf
+    slim_stats = None
+    if slim:
+        assumptions, slim_stats = slim_hypotheses(assumptions, goal, slim)
     asserts = list(assumptions) + [goal if expect_sat else z3.Not(goal)]
     gi = len(asserts) - 1
     for k, t in (watch or {}).items():
@@ -31,6 +98,8 @@ def to_smt2(assumptions, goal, expect_sat=False, qf=True, watch=None, rounds=Non
     s = z3.Solver()
     for a in asserts:
         s.add(a)
+    if slim_stats is not None:
+        stats = dict(stats, slim=slim_stats)
     return s.to_smt2(), stats
 
 
@@ -77,15 +146,16 @@ def run_z3(smt2, timeout_ms=None, want_model=True, seed=0):
     ctx = mp.get_context("fork")
     q = ctx.Queue()
     p = ctx.Process(target=_z3_worker, args=(smt2, timeout_ms, want_model, seed, q))
-    p.start()
-    try:
-        res = q.get(timeout=timeout_ms / 1000.0 + 5)
-    except Exception:
-        res = ("unknown", timeout_ms / 1000.0, None, "hard timeout (killed)")
-    p.join(timeout=1)
-    if p.is_alive():
-        p.kill()
-        p.join()
+    with _slot():
+        p.start()
+        try:
+            res = q.get(timeout=timeout_ms / 1000.0 + 5)
+        except Exception:
+            res = ("unknown", timeout_ms / 1000.0, None, "hard timeout (killed)")
+        p.join(timeout=1)
+        if p.is_alive():
+            p.kill()
+            p.join()
     return res
 
 
@@ -105,20 +175,23 @@ def z3_to_cvc5(smt2):
 
 def _run_cancellable(cmd, timeout_s, cancel=None):
     """subprocess.run with a cancel event (used when two solvers race on one query)"""
-    p = subprocess.Popen(cmd, stdout=subprocess.PIPE, stderr=subprocess.PIPE, text=True)
-    t0 = time.time()
-    while True:
-        try:
-            out, errt = p.communicate(timeout=0.25)
-            return out, errt, False
-        except subprocess.TimeoutExpired:
-            if (cancel is not None and cancel.is_set()) or time.time() - t0 > timeout_s:
-                p.kill()
-                try:
-                    p.communicate(timeout=2)
-                except Exception:
-                    pass
-                return "", "", True
+    with _slot(cancel) as sl:
+        if not sl.held:
+            return "", "", True          # cancelled while waiting for a slot: another member has decided the query
+        p = subprocess.Popen(cmd, stdout=subprocess.PIPE, stderr=subprocess.PIPE, text=True)
+        t0 = time.time()
+        while True:
+            try:
+                out, errt = p.communicate(timeout=0.25)
+                return out, errt, False
+            except subprocess.TimeoutExpired:
+                if (cancel is not None and cancel.is_set()) or time.time() - t0 > timeout_s:
+                    p.kill()
+                    try:
+                        p.communicate(timeout=2)
+                    except Exception:
+                        pass
+                    return "", "", True
 
 
 def run_cvc5(smt2, timeout_s=None, cancel=None):
@@ -152,7 +225,7 @@ Z3CLI = "z3-new"
 _DEF = re.compile(r"\(define-fun\s+(\S+)\s+\(\)\s+(\S+)\s+((?:\"(?:[^\"]|\"\")*\")|[^\s()]+|\(- \d+\))\)")
 
 
-def run_z3_cli(smt2, timeout_s=40, cancel=None):
+def run_z3_cli(smt2, timeout_s=60, cancel=None, seed=None):
     """The z3 command-line front end uses a different default strategy than the API solver: third portfolio member."""
     text = smt2.replace("(check-sat)", "(check-sat)\n(get-model)")
     with tempfile.NamedTemporaryFile("w", suffix=".smt2", delete=False, dir=os.environ.get("TMPDIR", "/tmp")) as f:
@@ -161,7 +234,7 @@ def run_z3_cli(smt2, timeout_s=40, cancel=None):
     t0 = time.time()
     model = None
     try:
-        so, _se, killed = _run_cancellable([Z3CLI, f"-T:{timeout_s}", path], timeout_s + 5, cancel)
+        so, _se, killed = _run_cancellable([Z3CLI, f"-T:{timeout_s}"] + ([f"smt.random_seed={seed}"] if seed else []) + [path], timeout_s + 5, cancel)
         if killed:
             raise subprocess.TimeoutExpired(Z3CLI, timeout_s)
         out = (so or "")
@@ -217,6 +290,17 @@ def decide(job):
         return res
     # cvc5 and the z3 command-line front end (different default strategy) race; the first definite answer wins
     import threading
+    if job.get("slim_of") is not None and "slim_smt2" not in job:
+        o = job["slim_of"]
+        texts = []
+        for depth in (1, 2):
+            try:
+                t_, st_ = to_smt2(o.pc, o.goal, False, watch=None, slim=depth)
+                if st_.get("slim", {}).get("kept", 0) < st_.get("slim", {}).get("quantified_hypotheses", 0) and t_ not in texts:
+                    texts.append(t_)
+            except Exception:
+                pass
+        job = dict(job, slim_smt2=texts)
     cancel = threading.Event()
     box = {}
 
@@ -229,14 +313,28 @@ def decide(job):
         box["z3-cli"] = run_z3_cli(smt2, cancel=cancel)
         if box["z3-cli"][0] in ("sat", "unsat"):
             cancel.set()
+    # further members on SMALLER queries (hypotheses selected by shared symbols, see slim_hypotheses): only their `unsat`
+    # counts (fewer hypotheses), and they make the verdict of a hard obligation independent of the solvers' luck on the big one
+    def _slim(name, text, runner):
+        def go():
+            r_ = runner(text, cancel=cancel)
+            box[name] = r_ if r_[0] == "unsat" else ("unknown", r_[1], None, f"slim query: {r_[0]} (not a refutation)")
+            if r_[0] == "unsat":
+                cancel.set()
+        return go
     t0 = time.time()
     ths = [threading.Thread(target=_a), threading.Thread(target=_b)]
+    for k, text in enumerate(job.get("slim_smt2") or []):
+        ths.append(threading.Thread(target=_slim(f"z3-cli+slim{k + 1}", text, run_z3_cli)))
+        if k == 0:
+            ths.append(threading.Thread(target=_slim(f"z3-cli+slim{k + 1}+seed7", text, lambda t, cancel=None: run_z3_cli(t, cancel=cancel, seed=7))))
+        ths.append(threading.Thread(target=_slim(f"cvc5+slim{k + 1}", text, lambda t, cancel=None: run_cvc5(t, job.get("cvc5_s"), cancel))))
     for th in ths:
         th.start()
     for th in ths:
         th.join()
     res["time_s"] += time.time() - t0
-    for name in ("cvc5", "z3-cli"):
+    for name in ["cvc5", "z3-cli"] + sorted(k for k in box if "slim" in k):
         r_, _dt, m_, _why = box.get(name, ("unknown", 0, None, ""))
         if r_ in ("sat", "unsat"):
             res.update(backend=name, verdict=r_, model=m_)
@@ -271,6 +369,8 @@ def work_obj(o, i=0):
         else:
             smt2, stats = to_smt2(o.pc, o.goal, o.expect_sat, watch=o.watch)
             job = {"id": i, "smt2": smt2}
+        if not o.expect_sat and stats.get("quantified") and o.kind not in ("cover", "finding"):
+            job["slim_of"] = o          # slim variants are generated lazily (only when the z3 API leaves the query open)
         job["both"] = bool(os.environ.get("PYVC_BOTH"))
         job["seed"] = int(os.environ.get("VERIF_SEED", "0") or 0) % 1000
         gen_s = time.time() - t0
@@ -321,7 +421,11 @@ def work_obj(o, i=0):
         r["gen_s"] = gen_s
         r["qstats"] = stats
         r["size"] = len(smt2)
-        r["smt2"] = smt2 if len(smt2) < 20000 else None
+        r["smt2"] = smt2 if len(smt2) < 20000 or os.environ.get("PYVC_DUMP") else None
+        if os.environ.get("PYVC_DUMP") and r["time_s"] > 8:
+            os.makedirs(os.environ["PYVC_DUMP"], exist_ok=True)
+            with open(os.path.join(os.environ["PYVC_DUMP"], f"slow_{i}_{r['verdict']}_{int(r['time_s'])}s.smt2"), "w") as fh:
+                fh.write(f"; {o.unit}/{o.name} path={o.path} backend={r['backend']}\n" + smt2)
         return r
     except Exception as e:
         import traceback
